@@ -7,10 +7,10 @@ package main
 import (
 	"fmt"
 	"go/ast"
-	"os"
 	"go/constant"
 	"go/token"
 	"go/types"
+	"os"
 	"sort"
 	"strings"
 
@@ -47,38 +47,38 @@ type loopInfo struct {
 }
 
 type Exec struct {
-	p       *Program
-	fn      *ssa.Function
-	fc      *FuncContract
-	name    string
-	native  bool
-	decls   []string
-	declSet map[string]bool
-	nfresh  int
-	obls    []*Obligation
-	entry   *State
-	loops   map[*ssa.BasicBlock]*loopInfo
-	paths   int
-	watches []watch
-	params  map[string]SV
-	lets    map[string]SV
-	letSrc  map[string]string
-	axioms  []string // quantified facts about the entry heap (prunable)
-	extra   []string // extra assertions (ground instances) global to this function
-	curLoop     *loopInfo // loop whose contract clauses are being interpreted (for `iter`)
-	collector   *[]inlineRet // non-nil while an uncontracted helper is executed inline
-	inlineDepth int
-	wrapped []Term // errors bound to %w verbs of the format being interpreted
-	isInit  bool
+	p             *Program
+	fn            *ssa.Function
+	fc            *FuncContract
+	name          string
+	native        bool
+	decls         []string
+	declSet       map[string]bool
+	nfresh        int
+	obls          []*Obligation
+	entry         *State
+	loops         map[*ssa.BasicBlock]*loopInfo
+	paths         int
+	watches       []watch
+	params        map[string]SV
+	lets          map[string]SV
+	letSrc        map[string]string
+	axioms        []string     // quantified facts about the entry heap (prunable)
+	extra         []string     // extra assertions (ground instances) global to this function
+	curLoop       *loopInfo    // loop whose contract clauses are being interpreted (for `iter`)
+	collector     *[]inlineRet // non-nil while an uncontracted helper is executed inline
+	inlineDepth   int
+	wrapped       []Term // errors bound to %w verbs of the format being interpreted
+	isInit        bool
 	reportLenient bool
-	ghostFn bool // defined in a verif-tagged file (ghost client)
-	lenient bool
-	inOnce  bool
-	covers  int
-	callDepth int
-	entryInv map[string]string // invariant label -> term at entry
-	retCount int
-	stepBudget int
+	ghostFn       bool // defined in a verif-tagged file (ghost client)
+	lenient       bool
+	inOnce        bool
+	covers        int
+	callDepth     int
+	entryInv      map[string]string // invariant label -> term at entry
+	retCount      int
+	stepBudget    int
 }
 
 type watch struct {
